@@ -53,6 +53,8 @@ def run(ctx):
     # slice sizes that are multiples of 16 with as many (or fewer) goroutines as 16-byte units: a trailing chunk of exactly 16 bytes
     sets.append(P.PSet({"p": L.gen_content(rng, "random", 48 * 2 + 7), "q": L.gen_content(rng, "random", 48)}, 48, 3, g=1, tag="slice 48"))
     sets.append(P.PSet({"p": L.gen_content(rng, "random", 80 + 3), "q": L.gen_content(rng, "random", 79)}, 80, 2, g=1, tag="slice 80"))
+    # a slice size whose per-goroutine byte ranges exceed 32 KiB and are not a multiple of it
+    sets.append(P.PSet({"p": L.gen_content(rng, "random", 40000 * 2 + 11)}, 40000, 2, g=1, tag="slice 40000"))
     lines, meta = [], []
     for ps in sets:
         ps.bystanders = {}
@@ -112,6 +114,19 @@ def run(ctx):
             report("Create over existing output files failed (%s): %s" % (mode, i[:80]), replay)
         elif bad:
             report("Create over existing (longer) output files leaves different bytes than in a fresh directory: %s (%s)" % (bad, mode), replay)
+    # ---------------- PAR1 Creates one after the other in ONE process: a set with one long file, then sets with unequal sizes
+    # (what a first call leaves in a buffer must not leak into the next) - each must equal the model's bytes ----------------
+    p1seq = [P1.line_create("mem", P1.DIR + "/s%d.par" % k_, 2, [P1.DIR + "/" + n_ for n_, _ in fl_], {P1.DIR + "/" + n_: d_ for n_, d_ in fl_})
+             for k_, fl_ in enumerate([[("a", L.gen_content(rng, "random", 9000)), ("b", L.gen_content(rng, "random", 9000))],
+                                       [("a", L.gen_content(rng, "random", 5000)), ("b", L.gen_content(rng, "random", 100)), ("c", b"x")],
+                                       [("a", L.gen_content(rng, "random", 4100)), ("b", L.gen_content(rng, "random", 4097))]])]
+    p1i = ctx.run_lines(vh, p1seq, shards=1); p1m = ctx.run_lines(model, p1seq)
+    for k_, (line_, i_, m_) in enumerate(zip(p1seq, p1i, p1m)):
+        ctx.count("par1-sequence|%d" % k_, k_ > 0)
+        dist["par1"] += 1
+        if L.canon(i_, "mem") != L.canon(m_, "mem"):
+            report("PAR1 Create number %d of a sequence in one process differs from what the same Create gives by itself (the model): %s" % (k_ + 1, i_[:80]),
+                   {"lines": p1seq[:k_ + 1], "impl": i_[:800], "model": m_[:800], "class": {"kind": "par1-sequence"}})
     # ---------------- several Creates in ONE process, from different current directories, relative paths ----------------
     # (a result that depends on what the process did before - a working directory looked up once, a table built once -
     # is invisible to one call per process)
